@@ -8,6 +8,8 @@ pub mod c06;
 pub mod c07;
 pub mod c08;
 pub mod paging;
+pub mod c17;
+pub mod c18;
 
 pub fn run(a: &Args, rep: &mut Report) -> bool {
     match a.prop.to_lowercase().as_str() {
@@ -21,6 +23,8 @@ pub fn run(a: &Args, rep: &mut Report) -> bool {
         "c02" => paging::run(a, rep, "c02"),
         "c09" => paging::run(a, rep, "c09"),
         "c10" => paging::run(a, rep, "c10"),
+        "c17" => c17::run(a, rep),
+        "c18" => c18::run(a, rep),
         _ => return false,
     }
     true
